@@ -289,6 +289,26 @@ fn traversal(shp: Src, shx: Option<Src>, n: usize, order: u8) -> Result<Vec<(usi
     })
 }
 
+/// The same records with 2..8 filler bytes in front of each (a valid layout when read through
+/// the index, which is rebuilt accordingly; the header length covers the whole file).
+fn padded_variant(f: &File) -> (Vec<u8>, Vec<u8>) {
+    let mut shp = f.shp[..100].to_vec();
+    let mut shx = f.shx[..100].to_vec();
+    let mut start = 100usize;
+    for (k, &end) in f.ends.iter().enumerate() {
+        let gap = [2usize, 8, 4, 6, 2][k % 5];
+        shp.extend(std::iter::repeat(0xA5u8).take(gap));
+        let off = (shp.len() / 2) as i32;
+        shp.extend_from_slice(&f.shp[start..end]);
+        shx.extend_from_slice(&off.to_be_bytes());
+        shx.extend_from_slice(&f.shp[start + 4..start + 8]);
+        start = end;
+    }
+    let words = (shp.len() / 2) as i32;
+    shp[24..28].copy_from_slice(&words.to_be_bytes());
+    (shp, shx)
+}
+
 fn faults_and_chunks(f: &File, fi: usize, ctx: &Ctx, rep: &mut Report) {
     let n = f.want.len();
     let tname = type_name(f.t);
@@ -384,6 +404,34 @@ fn faults_and_chunks(f: &File, fi: usize, ctx: &Ctx, rep: &mut Report) {
         let mut schedules: Vec<Chunking> = (1..=8).map(Chunking::Fixed).collect();
         for s in 0..ctx.pick(12, 60) {
             schedules.push(Chunking::Random(ctx.seed ^ (s as u64 * 104729 + 7), 1 + s % 11));
+        }
+        // with an index: the same schedules over a layout with small gaps between the records
+        if with_shx && f.want.len() <= 8 {
+            let (pshp, pshx) = padded_variant(f);
+            for (si, sch) in schedules.iter().enumerate() {
+                let case = format!("c13:f{}:chunk:padded:{}", fi, si);
+                if !ctx.want(&case) {
+                    continue;
+                }
+                rep.eval();
+                rep.class("short-read schedule, padded layout with index");
+                rep.count("short_read_schedules_on_padded_layouts", 1);
+                let full = traversal(Src::new(pshp.clone()), Some(Src::new(pshx.clone())), n, 0);
+                let chunked = traversal(Src::chunked(pshp.clone(), sch.clone()), Some(Src::chunked(pshx.clone(), sch.clone())), n, 0);
+                match (full, chunked) {
+                    (Ok(a), Ok(b)) => {
+                        let da: Vec<&D> = a.iter().filter_map(|c| c.4.as_ref()).collect();
+                        let db: Vec<&D> = b.iter().filter_map(|c| c.4.as_ref()).collect();
+                        let genuine = da.len() == 2 * n && da.iter().take(n).zip(&f.want).all(|(g, w)| first_diff(g, w).is_none());
+                        if !genuine {
+                            rep.violation("padded-layout/full-reads-differ-from-written", &case, J::s(tname));
+                        } else if da != db || b.iter().any(|c| c.2) {
+                            rep.violation("short-read/differs-from-full-reads", &case, J::obj(vec![("type", J::s(tname)), ("schedule", J::s(format!("{:?}", sch))), ("layout", J::s("2..8 filler bytes in front of every record, read through the index"))]));
+                        }
+                    }
+                    (Err(p), _) | (_, Err(p)) => rep.violation("short-read/panic", &case, J::s(p.class())),
+                }
+            }
         }
         for (si, sch) in schedules.iter().enumerate() {
             let case = format!("c13:f{}:chunk:{}:{}", fi, if with_shx { "idx" } else { "noidx" }, si);
